@@ -375,11 +375,12 @@ class Facts:
                 st.append(c.id)
         return out
 
-    def inlined(self, fn):
-        """fn with its type's private, non-anchor helper methods virtually inlined (cached)"""
+    def inlined(self, fn, light=True):
+        """fn with its type's private, non-anchor helper methods virtually inlined (cached); light=False keeps calls to
+        public methods of small record types as calls"""
         if fn is None:
             return None
-        cache = self.__dict__.setdefault("_inl_cache", {})
+        cache = self.__dict__.setdefault("_inl_cache" if light else "_inl_cache_nolight", {})
         if "_anchor_ids_done" not in self.__dict__:
             try:
                 import enginerules
@@ -387,7 +388,7 @@ class Facts:
             except Exception:
                 self.__dict__["_anchor_ids_done"] = True
         if fn.id not in cache:
-            cache[fn.id] = inline_private_helpers(self, fn)
+            cache[fn.id] = inline_private_helpers(self, fn, light=light)
         return cache[fn.id]
 
     # ---- closures by type string
@@ -553,7 +554,7 @@ def is_private_helper(g):
     return (g.j.get("method") or g.name.split("::")[-1]) not in rule_names()
 
 
-def inline_private_helpers(F, fn, depth=2, max_blocks=4000):
+def inline_private_helpers(F, fn, depth=2, max_blocks=4000, light=True):
     """A copy of `fn` in which calls to *private, non-anchor methods / associated functions of the same type* are replaced by
     the callee's body (locals renumbered, parameters assigned from the arguments, `return` turned into an assignment of the
     destination plus a jump to the call's successor).  Extract-method refactorings inside a type therefore leave the
@@ -591,7 +592,7 @@ def inline_private_helpers(F, fn, depth=2, max_blocks=4000):
             private_helper = (same_type or same_file_free_fn) and (g.j.get("vis") or "") != "Public"
             # methods of small record types (not the engine, the database struct or a table type), whatever their visibility:
             # logic moved onto the record it concerns (`info.require_next_tx(..)`) is still the caller's logic
-            light_method = bool(g_ty) and g_ty not in heavy_types(F) and len(g.blocks) <= 120
+            light_method = light and bool(g_ty) and g_ty not in heavy_types(F) and len(g.blocks) <= 120
             if not (private_helper or light_method):
                 continue
             if g.name in inlined and _round > 0 and any(x == g.name for x in inlined[-50:]) and len(inlined) > 200:
